@@ -11,14 +11,14 @@ use paseto_core::paserk::PieWrapVersion;
 use super::{LocalKey, V1};
 
 impl LocalKey {
-    fn wrap_keys(&self, nonce: &[u8; 32]) -> (ctr::Ctr64BE<aes::Aes256>, hmac::Hmac<sha2::Sha384>) {
+    fn wrap_keys(&self, nonce: &[u8; 32]) -> (ctr::Ctr128BE<aes::Aes256>, hmac::Hmac<sha2::Sha384>) {
         use cipher::KeyIvInit;
         use digest::Mac;
 
         let (ek, n2) = kdf(&self.0, 0x80, nonce).split();
         let ak = kdf(&self.0, 0x81, nonce);
 
-        let cipher = ctr::Ctr64BE::<aes::Aes256>::new(&ek, &n2);
+        let cipher = ctr::Ctr128BE::<aes::Aes256>::new(&ek, &n2);
         let mac = hmac::Hmac::new_from_slice(&ak[..32]).expect("key should be valid");
         (cipher, mac)
     }
